@@ -104,6 +104,9 @@ type Outcome struct {
 	Panic    string
 	Steps    []Step
 	Recorder *Recorder
+	// Damage names a caller-owned slice (script or txid of the transaction handed to the engine,
+	// or the spent output's script) whose spare capacity was written to during the execution.
+	Damage string
 }
 
 // Run executes the program with a transaction context through WithTx. dbg may be
@@ -156,7 +159,12 @@ func RunOn(eng interpreter.Engine, unlock, lock []byte, flags interp.Flags, c Tx
 // RunModelOn is RunModel on an engine the caller owns (and may have used before).
 func RunModelOn(eng interpreter.Engine, m ref.Tx, idx int, lock []byte, amount uint64, flags interp.Flags, dbg interpreter.Debugger) (out Outcome) {
 	tx := ref.ToLib(m)
-	prev := &bt.Output{Satoshis: amount, LockingScript: bscript.NewFromBytes(append([]byte{}, lock...))}
+	prev := &bt.Output{Satoshis: amount, LockingScript: bscript.NewFromBytes(ref.Canary(lock))}
+	defer func() {
+		if out.Damage = ref.CanaryDamage(tx); out.Damage == "" && prev.LockingScript != nil && ref.CanaryDamaged(*prev.LockingScript) {
+			out.Damage = "the bytes behind the spent output's locking script slice were overwritten"
+		}
+	}()
 	opts := append([]interpreter.ExecutionOptionFunc{interpreter.WithTx(tx, idx, prev)}, FlagOpts(flags, len(lock)+len(m.In)+int(flags))...)
 	if dbg != nil {
 		opts = append(opts, interpreter.WithDebugger(dbg))
